@@ -275,6 +275,13 @@ class SpecEval:
     def f_exists(self, node, env):
         return self._quant(node, env, z3.Exists)
 
+    def f_class_of(self, node, env):
+        """class_of(x): the class id of an object (compare with == only)"""
+        v = self.eval(node.args[0], env)
+        if isinstance(v.t, ty.Opt):
+            v = ty.opt_val(v)
+        return SV(ty.Int, ty.typeof(v.e))
+
     def f_isinstance(self, node, env):
         v = self.eval(node.args[0], env)
         return SV(ty.Bool, self.isinstance_(v, node.args[1]))
